@@ -551,7 +551,12 @@ impl Interpreter {
                             .lookup_var(&assignment.target.clone(), self.get_file_path())
                         {
                             Ok(Value::List(target_list)) => {
-                                target_list.swap(list);
+                                // copy the elements into the target's cell: the source list (and everything
+                                // that is not the target or an alias of it) must stay as it is
+                                if !Rc::ptr_eq(target_list, list) {
+                                    let elements = list.borrow().clone();
+                                    *target_list.borrow_mut() = elements;
+                                }
                             }
                             _ => self.venv.define(assignment.target.clone(), result.clone()),
                         }
